@@ -100,6 +100,19 @@ func c14(c *core.Ctx) {
 								return false
 							})
 						})
+						if !wasHead {
+							// the removal that precedes this grant on every path took out index 0 by construction
+							for _, a2 := range core.Accesses(info, body, map[*types.Var]bool{callers: true}, false) {
+								if !a2.Write {
+									continue
+								}
+								if l2, ok2 := fl.Locate(a2.Node); ok2 && fl.Dominates(l2, loc) {
+									if r2 := queueRemovalOf(info, body, fl, a2, callers); r2.kind == "index" && r2.const0 {
+										wasHead = true
+									}
+								}
+							}
+						}
 						okHead = nonEmpty && wasHead
 						why = "callers[0] granted; nonEmpty=" + b2s(nonEmpty) + " removedWasHead=" + b2s(wasHead)
 					} else if obj := core.ObjOf(info, target); obj != nil {
@@ -180,20 +193,29 @@ func c14(c *core.Ctx) {
 				case f == enq && a.Form == "append":
 					rOwner.Ok(construct, a.Node.Pos(), "tail append")
 				case f == rem:
-					// removal: guarded by c.id == id(param), and removes exactly index i of the range
+					// which element leaves the queue with this write, and is it the one whose id was matched
 					idParam := paramObj(rem, 0)
-					guarded := false
-					for _, ft := range expandFacts(info, body, fl.FactsAt(loc)) {
-						cmpFact(ft, func(x ast.Expr, op token.Token, y ast.Expr) bool {
-							if op == token.EQL && core.FieldOf(info, x) == idF && core.ObjOf(info, y) == idParam {
-								guarded = true
-							}
-							return false
-						})
+					rmv := queueRemovalOf(info, body, fl, a, callers)
+					switch rmv.kind {
+					case "none":
+						rOwner.Ok(construct, a.Node.Pos(), "removes nobody ("+rmv.why+")")
+					case "index":
+						guarded := false
+						for _, ft := range expandFacts(info, body, fl.FactsAt(loc)) {
+							cmpFact(ft, func(x ast.Expr, op token.Token, y ast.Expr) bool {
+								if op == token.EQL && core.FieldOf(info, x) == idF && core.ObjOf(info, y) == idParam {
+									if isQueueElem(info, body, core.Unparen(x).(*ast.SelectorExpr).X, callers, rmv) {
+										guarded = true
+									}
+								}
+								return false
+							})
+						}
+						rOwner.Check(guarded, construct, a.Node.Pos(), "removes the element whose id equals the argument ("+rmv.why+")",
+							"removal from the lock queue is not restricted to the element whose id equals the argument ("+rmv.why+"; id of that element tested="+b2s(guarded)+")")
+					default:
+						rOwner.Bad(construct, a.Node.Pos(), "removal from the lock queue is not restricted to the element whose id equals the argument (the write does not remove one identified element: "+rmv.why+")")
 					}
-					shape := removesRangeIndex(info, body, a.Node, callers)
-					rOwner.Check(guarded && shape, construct, a.Node.Pos(), "removes callers[i] where callers[i].id == id",
-						"removal from the lock queue is not restricted to the element whose id equals the argument (guarded="+b2s(guarded)+" removesExactlyIndex="+b2s(shape)+")")
 				default:
 					rOwner.Bad(construct, a.Node.Pos(), "unexpected mutation of the lock queue outside enqueue/remove")
 				}
@@ -539,6 +561,87 @@ func c28(c *core.Ctx) {
 	c.Explain = "Structural necessary condition for bounded lock bookkeeping: every keyed container in the lock package that gains entries on Lock has a removal site reachable from the release paths (Unlock, TTL expiry, cancellation)."
 	c.NotCovered = []string{"that the removal actually happens for every history (needs execution)", "memory held by goroutines/timers"}
 	r := c.Rule("C28.prune", "each keyed container (map / sync.Map field) of the lock bookkeeping that is inserted into has a delete site reachable from queue.remove / Unlock", 1)
+	// C28.stop: what a granted lock leaves running (the TTL watchdog goroutine with its timer, holding the
+	// caller and the queue) is stopped by closing the caller's done channel: every removal from a queue
+	// must close it on every path, whichever element is removed and whoever is waiting behind it.
+	rStop := c.Rule("C28.stop", "a function that takes a caller out of a lock queue (any whole-slice write of queue.callers that is not a tail append) closes a caller's done channel on every path from that write to its exit: the done channel is the only thing that stops the caller's TTL watchdog goroutine before the client-chosen TTL runs out", 1)
+	{
+		callersF := p.MustField(pkgLock, "queue", "callers")
+		doneF := core.StructFields(mustStruct(p, pkgLock, "caller"))["done"]
+		if doneF == nil {
+			rStop.Ok(pkgLock+".caller:no-done-channel", token.NoPos, "callers carry no watchdog termination channel (nothing is parked per lock)")
+		} else {
+			for _, f := range p.FuncsIn(pkgLock) {
+				if f.Decl.Body == nil {
+					continue
+				}
+				info := f.Info()
+				for bi, body := range core.Bodies(f.Decl) {
+					var removals []ast.Node
+					for _, a := range core.Accesses(info, body, map[*types.Var]bool{callersF: true}, false) {
+						if !a.Write {
+							continue
+						}
+						switch a.Form {
+						case "assign", "append", "reslice":
+						default:
+							continue
+						}
+						as, ok := a.Node.(*ast.AssignStmt)
+						if !ok {
+							continue
+						}
+						tail := false
+						for _, rhs := range as.Rhs {
+							if call, ok := core.Unparen(rhs).(*ast.CallExpr); ok && isBuiltinCall(info, call, "append") && len(call.Args) >= 1 {
+								if sel, ok := core.Unparen(call.Args[0]).(*ast.SelectorExpr); ok && core.FieldOf(info, sel) == callersF {
+									tail = true
+								}
+							}
+						}
+						if tail {
+							continue
+						}
+						removals = append(removals, a.Node)
+					}
+					if len(removals) == 0 {
+						continue
+					}
+					c.Touch(f)
+					fl := core.NewFlow(p, info, body)
+					closesDone := core.NodeHasCall(func(call *ast.CallExpr) bool {
+						return isBuiltinCall(info, call, "close") && len(call.Args) == 1 && core.FieldOf(info, call.Args[0]) == doneF
+					})
+					// one obligation per function body: the first removal on each path decides; a later
+					// removal after the close (releasing the backing array) removes nobody new
+					bad := ast.Node(nil)
+					for _, rm := range removals {
+						loc, ok := fl.Locate(rm)
+						if !ok {
+							continue
+						}
+						// is this removal itself only reachable after a close(done)? then it is covered
+						pre, _ := fl.CanReach(fl.Entry(), nil, closesDone, core.ContainsNode(rm))
+						if !pre {
+							continue
+						}
+						esc := fl.ExitWithout(loc, nil, false, closesDone)
+						if esc {
+							bad = rm
+							break
+						}
+					}
+					construct := fmt.Sprintf("%s:body%d:removal-closes-done", f.Key, bi)
+					if bad != nil {
+						rStop.Bad(construct, bad.Pos(), "a caller is taken out of the queue here and the function can return without closing a done channel: the watchdog goroutine of a released lock (timer, caller, queue) stays parked for the whole TTL the client chose")
+					} else {
+						rStop.Ok(construct, removals[0].Pos(), "every path from the removal to the exit closes done")
+					}
+				}
+			}
+		}
+	}
+
 	_, st := p.StructOf(pkgLock, "lock")
 	for i := 0; i < st.NumFields(); i++ {
 		fld := st.Field(i)
@@ -640,4 +743,180 @@ func c28(c *core.Ctx) {
 			}
 		}
 	}
+}
+
+// qRemoval describes what a write to the queue slice removes.
+type qRemoval struct {
+	kind   string   // "index": exactly one element at idx; "none": nobody; "unknown"
+	idx    ast.Expr // index expression (nil when const0)
+	const0 bool
+	why    string
+}
+
+// queueRemovalOf classifies a write to the queue slice by the element that leaves the queue:
+//
+//	f = append(f[:i], f[i+1:]...)                      -> index i
+//	f = f[1:]                                          -> index 0
+//	copy(f[i:], f[i+1:]) ... f = f[:len(f)-1]          -> index i
+//	f[0] = nil before f = f[1:], f[len(f)-1] = nil before f = f[:len(f)-1]  -> nobody (slot cleared for the GC)
+//	f = nil / f[:0] where len(f) == 0 is known         -> nobody
+func queueRemovalOf(info *types.Info, body ast.Node, fl *core.Flow, a core.Access, field *types.Var) qRemoval {
+	as, ok := a.Node.(*ast.AssignStmt)
+	if !ok || len(as.Lhs) != 1 || len(as.Rhs) != 1 {
+		return qRemoval{kind: "unknown", why: "not a simple assignment"}
+	}
+	loc, located := fl.Locate(a.Node)
+	rhs := core.Unparen(as.Rhs[0])
+	lenMinus1 := func(e ast.Expr) bool {
+		be, ok := core.Unparen(e).(*ast.BinaryExpr)
+		return ok && be.Op == token.SUB && isConst(info, be.Y, 1) && lenOfField(info, be.X, field)
+	}
+	plus1Of := func(e ast.Expr, base ast.Expr) bool {
+		be, ok := core.Unparen(e).(*ast.BinaryExpr)
+		if !ok || be.Op != token.ADD || !isConst(info, be.Y, 1) {
+			return false
+		}
+		bo, eo := core.ObjOf(info, base), core.ObjOf(info, be.X)
+		return bo != nil && bo == eo
+	}
+	// the next whole-slice write after this node in the same block
+	nextWrite := func() (*ast.AssignStmt, bool) {
+		var out *ast.AssignStmt
+		ast.Inspect(body, func(x ast.Node) bool {
+			blk, ok := x.(*ast.BlockStmt)
+			if !ok {
+				return true
+			}
+			for i, st := range blk.List {
+				if st == ast.Stmt(as) {
+					for _, st2 := range blk.List[i+1:] {
+						if a2, ok2 := st2.(*ast.AssignStmt); ok2 && len(a2.Lhs) == 1 {
+							if sel, isSel := core.Unparen(a2.Lhs[0]).(*ast.SelectorExpr); isSel && core.FieldOf(info, sel) == field {
+								out = a2
+								return false
+							}
+						}
+					}
+				}
+			}
+			return true
+		})
+		return out, out != nil
+	}
+	if a.Form == "elem" {
+		ix, isIx := core.Unparen(as.Lhs[0]).(*ast.IndexExpr)
+		if !isIx || !core.IsNilIdent(info, rhs) {
+			return qRemoval{kind: "unknown", why: "an element of the queue is overwritten"}
+		}
+		if nw, ok := nextWrite(); ok {
+			if sl, isSl := core.Unparen(nw.Rhs[0]).(*ast.SliceExpr); isSl && core.FieldOf(info, sl.X) == field {
+				if isConst(info, ix.Index, 0) && sl.Low != nil && isConst(info, sl.Low, 1) && sl.High == nil {
+					return qRemoval{kind: "none", why: "slot 0 cleared right before it is dropped"}
+				}
+				if lenMinus1(ix.Index) && sl.Low == nil && sl.High != nil && lenMinus1(sl.High) {
+					return qRemoval{kind: "none", why: "last slot cleared right before it is dropped"}
+				}
+			}
+		}
+		return qRemoval{kind: "unknown", why: "an element is set to nil and stays in the queue"}
+	}
+	switch v := rhs.(type) {
+	case *ast.CallExpr:
+		if isBuiltinCall(info, v, "append") && len(v.Args) == 2 && v.Ellipsis.IsValid() {
+			x, ok1 := core.Unparen(v.Args[0]).(*ast.SliceExpr)
+			y, ok2 := core.Unparen(v.Args[1]).(*ast.SliceExpr)
+			if ok1 && ok2 && core.FieldOf(info, x.X) == field && core.FieldOf(info, y.X) == field && x.Low == nil && x.High != nil && y.High == nil && y.Low != nil && plus1Of(y.Low, x.High) {
+				return qRemoval{kind: "index", idx: x.High, why: "append(q[:i], q[i+1:]...) removes index " + core.ExprStr(x.High)}
+			}
+		}
+		return qRemoval{kind: "unknown", why: "unrecognised append"}
+	case *ast.SliceExpr:
+		if core.FieldOf(info, v.X) != field {
+			return qRemoval{kind: "unknown", why: "assigned from another slice"}
+		}
+		if v.Low != nil && isConst(info, v.Low, 1) && v.High == nil {
+			return qRemoval{kind: "index", const0: true, why: "q = q[1:] removes index 0"}
+		}
+		if v.Low == nil && v.High != nil && lenMinus1(v.High) {
+			// needs the shift copy(q[i:], q[i+1:]) right before on every path
+			var idx ast.Expr
+			ast.Inspect(body, func(x ast.Node) bool {
+				call, ok := x.(*ast.CallExpr)
+				if !ok || !isBuiltinCall(info, call, "copy") || len(call.Args) != 2 {
+					return true
+				}
+				d, ok1 := core.Unparen(call.Args[0]).(*ast.SliceExpr)
+				sr, ok2 := core.Unparen(call.Args[1]).(*ast.SliceExpr)
+				if ok1 && ok2 && core.FieldOf(info, d.X) == field && core.FieldOf(info, sr.X) == field && d.Low != nil && d.High == nil && sr.High == nil && sr.Low != nil && plus1Of(sr.Low, d.Low) {
+					if lc, okc := fl.Locate(call); okc && located && fl.Dominates(lc, loc) {
+						idx = d.Low
+					}
+				}
+				return true
+			})
+			if idx != nil {
+				return qRemoval{kind: "index", idx: idx, why: "copy(q[i:], q[i+1:]) and q = q[:len(q)-1] remove index " + core.ExprStr(idx)}
+			}
+			return qRemoval{kind: "unknown", why: "the last element is dropped without a shift"}
+		}
+		if v.Low == nil && v.High != nil && isConst(info, v.High, 0) {
+			break // q[:0]: handled below as emptying
+		}
+		return qRemoval{kind: "unknown", why: "unrecognised reslice"}
+	}
+	if core.IsNilIdent(info, rhs) || func() bool { sl, ok := rhs.(*ast.SliceExpr); return ok && sl.High != nil && isConst(info, sl.High, 0) }() {
+		empty := located && holdsAt(fl, body, loc, func(ft core.Fact) bool {
+			return cmpFact(ft, func(x ast.Expr, op token.Token, y ast.Expr) bool {
+				return lenOfField(info, x, field) && isConst(info, y, 0) && op == token.EQL
+			})
+		})
+		if empty {
+			return qRemoval{kind: "none", why: "the queue is known to be empty here (backing array released)"}
+		}
+		return qRemoval{kind: "unknown", why: "the whole queue is emptied"}
+	}
+	return qRemoval{kind: "unknown", why: "unrecognised write"}
+}
+
+// isQueueElem reports whether e denotes the queue element at the removed index: q[idx] itself, the
+// value variable of a range over q whose key is idx, or a local defined as q[idx].
+func isQueueElem(info *types.Info, body ast.Node, e ast.Expr, field *types.Var, r qRemoval) bool {
+	sameIdx := func(ix ast.Expr) bool {
+		if r.const0 {
+			return isConst(info, ix, 0)
+		}
+		a, b := core.ObjOf(info, ix), core.ObjOf(info, r.idx)
+		return a != nil && a == b
+	}
+	e = core.Unparen(e)
+	if ix, ok := e.(*ast.IndexExpr); ok && core.FieldOf(info, ix.X) == field {
+		return sameIdx(ix.Index)
+	}
+	obj := core.ObjOf(info, e)
+	if obj == nil {
+		return false
+	}
+	found := false
+	ast.Inspect(body, func(x ast.Node) bool {
+		switch v := x.(type) {
+		case *ast.RangeStmt:
+			if val, ok := v.Value.(*ast.Ident); ok && info.Defs[val] == obj && core.FieldOf(info, v.X) == field && v.Key != nil && !r.const0 {
+				if k, ok := v.Key.(*ast.Ident); ok && info.Defs[k] == core.ObjOf(info, r.idx) {
+					found = true
+				}
+			}
+		case *ast.AssignStmt:
+			if v.Tok == token.DEFINE && len(v.Lhs) == len(v.Rhs) {
+				for i, l := range v.Lhs {
+					if id, ok := l.(*ast.Ident); ok && info.Defs[id] == obj {
+						if ix, ok := core.Unparen(v.Rhs[i]).(*ast.IndexExpr); ok && core.FieldOf(info, ix.X) == field && sameIdx(ix.Index) {
+							found = true
+						}
+					}
+				}
+			}
+		}
+		return true
+	})
+	return found
 }
